@@ -91,7 +91,7 @@ def decoder_bodies(c):
         if b.kind == "fn" and b.id.startswith(PRIV) and ("decode_" in b.name):
             # private predicates / helpers (e.g. a shared Content-Type test) are looked through; the body reader and the other
             # decoders are semantic atoms of these rules
-            rb = inline.expand(c, c06.real_body(c, b), depth=2, pred=lambda cb: cb.d.get("vis") != "pub" and "decode_" not in cb.name and cb.name not in ("read_body", "async_read_body"))
+            rb = inline.expand(c, c06.real_body(c, b), depth=2, pred=lambda cb: cb.d.get("vis") != "pub" and "decode_" not in cb.name and cb.name not in ("read_body", "async_read_body"), lower=True)
             out[b.name] = (b, rb)
     return out
 
@@ -164,6 +164,20 @@ def run(ctx):
                     k = [dt.resolve_const(rb, a) for a in t["args"]]
                     if any(x and x.get("item") == "http::status::StatusCode::NO_CONTENT" for x in k):
                         shortcuts.append((bb, t))
+            # delegation: a 204-aware helper may hand the response to another 204-aware helper (void = a defaultable IgnoredAny
+            # that is discarded); the 204 behaviour is then the callee's, decided at the callee
+            aware = {n_: k_ for b_, k_ in NO_CONTENT.items() if k_ is not None for n_ in (b_, "async_" + b_)}
+            deleg = [t for bb, t in rb.calls() if t["call"].get("local") and t["call"]["name"] in aware and t["call"]["name"] != name]
+            if kind is not None and not shortcuts and len(deleg) == 1 and name.startswith("async_") == deleg[0]["call"]["name"].startswith("async_"):
+                ck = aware[deleg[0]["call"]["name"]]
+                targ = tystr(deleg[0]["call"]["substs"][0]) if deleg[0]["call"].get("substs") else ""
+                if kind == "unit":
+                    good = ck in ("unit", "default") and tystr(rb.local_ty(0) if rb.kind != "coroutine" else ob.local_ty(0)) != "" and (ck == "unit" or targ == "serde_core::de::ignored_any::IgnoredAny")
+                else:
+                    good = ck == kind
+                ctx.check(good, "R18.3", rb.loc(), f"{name}|204", f"{name}: delegates to {deleg[0]['call']['name']}::<{targ}> whose 204 result is {ck}; required: {kind}" + (" with the body of other responses validated as IgnoredAny" if kind == "unit" else ""),
+                          instance=f"{name}: 204 handled by {deleg[0]['call']['name']}::<{targ.split('::')[-1]}> ({ck})")
+                continue
             if kind is None:
                 ctx.check(not shortcuts, "R18.3", rb.loc(), f"{name}|no-204", f"{name} must not special-case 204 No Content (a value is required)", instance=f"{name}: no 204 shortcut")
                 continue
@@ -183,6 +197,8 @@ def run(ctx):
                                 val = "none"
                             elif (r[0] == "def" and r[1][1] != "T" and r[1][2]["r"].get("agg") == "tuple" and not r[1][2]["r"]["ops"]) or (r[0] == "const" and r[1].get("zst")):
                                 val = "unit"
+                            elif kind == "unit" and tystr(rb.local_ty(0)).startswith("core::result::Result<(), "):
+                                val = "unit"      # by typing: the Ok payload of this function is `()` whatever expression builds it
                 good = val == kind
             ctx.check(good, "R18.3", rb.loc(), f"{name}|204", f"{name}: a 204 response must yield {kind} (found {len(shortcuts)} status tests, value {val})", instance=f"{name}: 204 -> {kind}")
             if base == "decode_empty_response":
@@ -277,4 +293,6 @@ TWIN = {"async_read_body": "read_body", "try_next": "next", "async_decode_serial
 
 def twin_norm(t):
     n = t["call"]["name"]
+    if t["call"].get("local") and n.startswith("async_"):
+        n = n[len("async_"):]      # the async flavour of a local helper is named async_<helper>
     return TWIN.get(n, n)
